@@ -297,6 +297,14 @@ static void run_cmd(int ntok, char **tok) {
         ev_begin("write"); ev_int("n", (long long)n); ev_int("ret", (long long)r); ev_ctx(c); ev_end();
         free(d);
     }
+    else if(!strcmp(op, "writeseg")) {
+        /* writeseg <c> <dataref> <piece>: deliver the data through zck_write calls of <piece> bytes each */
+        int c = C(1); size_t n; char *d = get_data(A(2), &n); size_t piece = (size_t)AI(3); if(piece == 0) piece = 1;
+        size_t done_ = 0; ssize_t r = 0; long calls = 0;
+        while(done_ < n) { size_t k = n - done_ < piece ? n - done_ : piece; r = zck_write(ctxs[c], d + done_, k); calls++; if(r != (ssize_t)k) break; done_ += k; }
+        ev_begin("write"); ev_int("n", (long long)n); ev_int("ret", r < 0 ? (long long)r : (long long)done_); ev_int("piece", (long long)piece); ev_int("calls", calls); ev_ctx(c); ev_end();
+        free(d);
+    }
     else if(!strcmp(op, "end_chunk")) { int c = C(1); ssize_t r = zck_end_chunk(ctxs[c]); ev_begin("end_chunk"); ev_int("ret", (long long)r); ev_ctx(c); ev_end(); }
     else if(!strcmp(op, "close")) { int c = C(1); bool r = zck_close(ctxs[c]); ev_begin("close"); ev_int("ret", r); ev_ctx(c); ev_end(); }
     else if(!strcmp(op, "read")) {
